@@ -248,17 +248,17 @@ func run(cfg lib.Cfg) error {
 		g.igs = []ts.IGSpec{
 			{Name: "a-dep", Shape: "dep", Table: "d1", Ref: "r-one", Ref2: "r-two", RefLo: 1, Hdr: true, Sources: []ts.SrcRef{{Name: "main", Start: 1}}},
 			{Name: "r-one", Shape: "created", Table: "r1", Hdr: true, Sources: []ts.SrcRef{{Name: "main", Start: 1}}},
-			{Name: "r-two", Shape: "created", Table: "r2", Hdr: true, Sources: []ts.SrcRef{{Name: "main", Start: 1}}},
+			{Name: "r-two", Shape: "created", Table: "r2", Hdr: true, Sources: []ts.SrcRef{{Name: "main", Start: 5}}},
 		}
-		sc := mk(fmt.Sprintf("corpus-reference-loses-its-position-%d", v), g, 4, 4, 1, uint64(58+v))
+		sc := mk(fmt.Sprintf("corpus-reference-loses-its-position-%d", v), g, 8, 4, 1, uint64(58+v))
 		sc.Gen.ForkIsolated = true
-		// r-two records ONE position (4, one batch of 4); then the chain grows and r-one goes on to 12
-		sc.Acts = append(sc.Acts, ts.Act{Do: "step", Tid: 3}, ts.Act{Do: "step", Tid: 2}, ts.Act{Do: "grow", K: 8})
-		sc.Acts = append(sc.Acts, ts.Act{Do: "step", Tid: 2}, ts.Act{Do: "step", Tid: 2})
-		// the dependent sees both references with a position (bound 4)
-		sc.Acts = append(sc.Acts, ts.Act{Do: "step", Tid: 1}, ts.Act{Do: "step", Tid: 1})
-		// blocks >= 3 are replaced: r-two's only position is orphaned
-		sc.Acts = append(sc.Acts, ts.Act{Do: "reorg", Fork: 3, Len: 12})
+		// r-two (start 5) records ONE position (8 = blocks 5..8); r-one records 4, 8 and, after growth, 12
+		sc.Acts = append(sc.Acts, ts.Act{Do: "step", Tid: 3}, ts.Act{Do: "step", Tid: 2}, ts.Act{Do: "step", Tid: 2},
+			ts.Act{Do: "grow", K: 4}, ts.Act{Do: "step", Tid: 2})
+		// the dependent sees both references with a position (bound 8) and reaches 8
+		sc.Acts = append(sc.Acts, ts.Act{Do: "step", Tid: 1}, ts.Act{Do: "step", Tid: 1}, ts.Act{Do: "step", Tid: 1})
+		// blocks >= 7 are replaced: r-two's only position is orphaned, r-one keeps position 4
+		sc.Acts = append(sc.Acts, ts.Act{Do: "reorg", Fork: 7, Len: 8})
 		switch v {
 		case 0: // r-two unwinds (commit), its COPY fails: it stays without any position
 			sc.Acts = append(sc.Acts, ts.Act{Do: "fault", Tid: 3, At: 8, Kind: "error"}, ts.Act{Do: "step", Tid: 3})
@@ -267,7 +267,7 @@ func run(cfg lib.Cfg) error {
 		case 2: // the dependent's Converge runs between r-two's two commits
 			sc.Acts = append(sc.Acts, ts.Act{Do: "advuntil", Tid: 3, Call: "Commit"})
 		}
-		sc.Acts = append(sc.Acts, ts.Act{Do: "step", Tid: 2}) // r-one follows the reorg and stays ahead
+		sc.Acts = append(sc.Acts, ts.Act{Do: "step", Tid: 2}, ts.Act{Do: "step", Tid: 2}) // r-one follows the reorg and is ahead again (12)
 		if v == 2 {
 			sc.Acts = append(sc.Acts, ts.Act{Do: "advuntil", Tid: 1, Call: "Rollback"}, ts.Act{Do: "advuntil", Tid: 1, Call: "Rollback"}, ts.Act{Do: "drain"})
 		} else {
